@@ -23,7 +23,7 @@ BINS = [b for b in ["h_inbound"] if os.path.exists(os.path.join(core.HARNESS, "s
 LEVEL = "proof"
 MANIFEST = {
     "category": "proof",
-    "text": "Coq theorems: bit-packing of the payment-secret info round-trips and errs exactly out of range; verify accepts everything create/create_from_hash produce (abstract MAC/keystream with the laws as visible hypotheses, and the executable HMAC-SHA256/ChaCha20/SHA-256 instance) and accepts only MAC-authenticated, sufficiently paid, unexpired secrets; PaymentClaimable only for complete sets of checked parts; rejected parts are failed back; for every sequence of ticks, blocks below the advertised deadline and further arrivals claim_funds claims exactly the advertised parts and amount; all-or-nothing; a claim never drops parts; a set for which PaymentClaimable was emitted is never failed by the timer, whatever the previous hops skimmed; PaymentClaimed reports exactly the announced amount = the sum received on ALL announced parts, and once an announced part is gone nothing is claimed. The five deciding comparisons (underpaid, already complete, complete on arrival, complete at a tick, claim amount mismatch) are regenerated from the Rust source by rs2v on every run and unfolded in the proofs. The models are tied to the code on every run: byte-exact differential execution of create/verify (incl. mutation streams) and op-by-op trace comparison of MPP accumulation / timeout / claim on real ChannelManagers, with parts whose received amount differs from the sender-intended one (skimming LSP-like forwarders, accept_underpaying_htlcs on/off), overshooting sets, per-part expiries, ticks and blocks before and after PaymentClaimable.",
+    "text": "Coq theorems: bit-packing of the payment-secret info round-trips and errs exactly out of range; verify accepts everything create/create_from_hash produce (abstract MAC/keystream with the laws as visible hypotheses, and the executable HMAC-SHA256/ChaCha20/SHA-256 instance) and accepts only MAC-authenticated, sufficiently paid, unexpired secrets; PaymentClaimable only for complete sets of checked parts; rejected parts are failed back; for every sequence of ticks, blocks below the advertised deadline and further arrivals claim_funds claims exactly the advertised parts and amount; all-or-nothing; a claim never drops parts; a set for which PaymentClaimable was emitted is never failed by the timer, whatever the previous hops skimmed; PaymentClaimed reports exactly the announced amount = the sum received on ALL announced parts, and once an announced part is gone nothing is claimed; a part that is accepted leaves a claim window (fail-back height at least two blocks ahead, the registered min_final_cltv_expiry_delta respected), is not expired by more than the one 7200 s grace period, and a keysend HTLC is only accepted if its preimage hashes to the payment hash. The deciding comparisons (underpaid, already complete, complete on arrival, complete at a tick, claim amount mismatch, expiry too soon, registered final CLTV delta, minimum amount, expired, calculate_absolute_expiry, the height passed at the call site) are regenerated from the Rust source by rs2v on every run and unfolded in the proofs. The models are tied to the code on every run: byte-exact differential execution of create/verify (incl. mutation streams) and op-by-op trace comparison of MPP accumulation / timeout / claim on real ChannelManagers, with parts whose received amount differs from the sender-intended one (skimming LSP-like forwarders, accept_underpaying_htlcs on/off), overshooting sets, per-part expiries, ticks and blocks before and after PaymentClaimable, boundary sweeps at every numeric threshold (expiry, registered final CLTV delta, minimum amount, block-time clock around expiry and expiry + grace) and keysend HTLCs with matching / foreign preimages with and without payment secret.",
     "note": "Proved on hand models; unforgeability is the HMAC assumption (visible hypothesis structure: verify_sound reduces acceptance to a MAC equality); ChannelManager wiring validated by trace correspondence, not proved. The accumulation loops around the regenerated comparisons are tied by textual source anchors only. payment_metadata, keysend without secret, phantom, BOLT12 contexts, trampoline receive, a previous hop lying about its skimmed fee not modelled.",
     "technique": "machine-checked proof in Coq (Z arithmetic for the packing, abstract-primitive section for verify, invariant over all op sequences for the claim window) + differential correspondence",
 }
